@@ -152,7 +152,11 @@ func walkDoc(pj *simdjson.ParsedJson, o walkOpt) (docs []*ref.Node, err error) {
 			if err := w.step(); err != nil {
 				return nil, err
 			}
+			pk := it.PeekNext()
 			typ := it.Advance()
+			if pk != typ {
+				return nil, fmt.Errorf("top level: PeekNext() = %v, then Advance() = %v", pk, typ)
+			}
 			if typ == simdjson.TypeNone {
 				break
 			}
@@ -311,7 +315,14 @@ func (w *walker) array(arr *simdjson.Array) (*ref.Node, error) {
 			if err := w.step(); err != nil {
 				return nil, err
 			}
-			if i.Advance() == simdjson.TypeNone {
+			// PeekNext / PeekNextTag announce what Advance is about to return (gaps left by
+			// deletions skipped the same way)
+			pk, pkt := i.PeekNext(), i.PeekNextTag()
+			at := i.Advance()
+			if pk != at || simdjson.TagToType[pkt] != at {
+				return nil, fmt.Errorf("array element: PeekNext() = %v, PeekNextTag() = %q, then Advance() = %v", pk, byte(pkt), at)
+			}
+			if at == simdjson.TypeNone {
 				break
 			}
 			e, err := w.value(&i)
